@@ -209,6 +209,20 @@ class FalsyIdFlavour(Flavour):
         return super().model_did(real, maxd)
 
 
+class StrCallbackFlavour(Flavour):
+    """string data in a tree with a calc_data_id callback (ids 'id:<name>'): the default id is not hash(data)"""
+    is_str = True
+
+    def _make(self, d):
+        return NAMES[d - 1]
+
+    def calc_data_id(self):
+        return lambda tree, data: "id:" + data if isinstance(data, str) else hash(data)
+
+    def default_real_did(self, d):
+        return "id:" + NAMES[d - 1]
+
+
 class IntFlavour(Flavour):
     def _make(self, d):
         return d * 7
@@ -300,6 +314,7 @@ def make(name, typed=False) -> Flavour:
         "ustr": UnicodeFlavour,
         "estr": EmptyStrFlavour,
         "str0": FalsyIdFlavour,
+        "strcb": StrCallbackFlavour,
         "doc": DocFlavour,
         "falsy": FalsyFlavour,
         "intnid": IntNodeIdFlavour,
